@@ -23,6 +23,9 @@ for m in (BB, SLOW, ATR, MACD, PPO, KC, CE, CCI):
     VALUE.setdefault(m, []).append('C15')
 for m in ALL:
     VALUE.setdefault(m, []).append('C05')
+for m in ALL:
+    if m != RSI:      # RSI is excluded by the property (fixed 0.1 seed)
+        VALUE.setdefault(m, []).append('C14')
 
 RANGE = {}
 for m in (RSI, FAST, SLOW, MFI, ER):
